@@ -10,9 +10,9 @@ CONSTANTS BPs, Betas, Pcts
 VARIABLES in, out, pc
 vars == <<in, out, pc>>
 BetasQ == {Q(1, 2), R(2)}
-BetasT == {Q(1, 4), Q(1, 2), R(1), R(2)}
+BetasT == {Q(1, 4), R(1), R(2)}
 PctsQ == {Zero, Q(1, 4), Q(1, 2)}
-PctsT == {Zero, Q(1, 128), Q(1, 4), Q(1, 2), Q(3, 4), R(1)}
+PctsT == {Zero, Q(1, 128), Q(1, 4), Q(3, 4)}
 Types == {"hdd_tidd_cdd_smooth", "hdd_tidd_cdd", "hdd_tidd_smooth", "tidd_cdd_smooth", "hdd_tidd", "tidd_cdd", "tidd"}
 C0 == R(10)
 ProbeBase == {-60, 0, 10, 20, 25, 30, 35, 40, 45, 50, 55, 60, 65, 70, 75, 80, 90, 100, 140}
